@@ -27,6 +27,7 @@ import (
 	"strconv"
 	"strings"
 
+	v2 "mosn.io/mosn/pkg/config/v2"
 	"mosn.io/mosn/pkg/configmanager"
 	"mosn.io/mosn/pkg/filter/network/tunnel"
 
@@ -41,6 +42,16 @@ var gens = map[string]GenFn{"CfgTypes": genCfgTypes}
 var knownExtTypes = map[string]reflect.Type{
 	"tunnel.AgentBootstrapConfig": reflect.TypeOf(tunnel.AgentBootstrapConfig{}),
 	"tunnel.ConnectionConfig":     reflect.TypeOf(tunnel.ConnectionConfig{}),
+}
+
+// config/v2 types with custom (un)marshalers that sit in interface{} filter-config positions and are therefore not
+// reached by the reflect walk from the effective config; they are walked too so that their hooks are in the graph
+// (C19 hook laws).  The translator fails if config/v2 declares a MarshalJSON for a type that is in neither set.
+var extraHookedTypes = []reflect.Type{
+	reflect.TypeOf(v2.HealthCheckFilter{}),
+	reflect.TypeOf(v2.FaultInject{}),
+	reflect.TypeOf(v2.StreamFaultInject{}),
+	reflect.TypeOf(v2.GRPC{}),
 }
 
 var (
@@ -853,6 +864,38 @@ func srcSwitches(repo string, b *strings.Builder) bool {
 
 // ---------------------------------------------------------------------------------------------------------------
 
+// walkTypes: the reflect part of the translator alone (type graph + hooks), for the harness commands
+func walkTypes(repo string) *graph {
+	g := &graph{repo: repo, byName: map[string]*gstruct{}, byType: map[reflect.Type]*gstruct{}, ok: true, pkgAST: map[string]map[string]*ast.FuncDecl{}}
+	g.structOf(configmanager.VerifConfType(), "root")
+	for _, n := range sortedTypeNames(knownExtTypes) {
+		g.structOf(knownExtTypes[n], n)
+	}
+	for _, t := range extraHookedTypes {
+		g.structOf(t, tname(t))
+	}
+	g.hooks()
+	return g
+}
+
+func (g *graph) hooks() {
+	for _, s := range g.structs {
+		s.Hook, s.Unhook = "HkNone", "UkNone"
+		curStruct = s.T
+		if s.HasM && inMosn(s.T) {
+			s.Hook = g.marshalHook(s)
+		} else if s.HasM {
+			s.Hook = "HkCustom"
+		}
+		if s.HasU && inMosn(s.T) {
+			s.Unhook = g.unmarshalHook(s)
+		} else if s.HasU {
+			s.Unhook = "UkCustom"
+		}
+		curStruct = nil
+	}
+}
+
 func genCfgTypes(repo string) (string, error) {
 	g := &graph{repo: repo, byName: map[string]*gstruct{}, byType: map[reflect.Type]*gstruct{}, ok: true, pkgAST: map[string]map[string]*ast.FuncDecl{}}
 	root := g.structOf(configmanager.VerifConfType(), "root")
@@ -913,21 +956,25 @@ func genCfgTypes(repo string) (string, error) {
 	for _, n := range sortedTypeNames(knownExtTypes) {
 		g.structOf(knownExtTypes[n], n)
 	}
-	for _, s := range g.structs {
-		s.Hook, s.Unhook = "HkNone", "UkNone"
-		curStruct = s.T
-		if s.HasM && inMosn(s.T) {
-			s.Hook = g.marshalHook(s)
-		} else if s.HasM {
-			s.Hook = "HkCustom"
-		}
-		if s.HasU && inMosn(s.T) {
-			s.Unhook = g.unmarshalHook(s)
-		} else if s.HasU {
-			s.Unhook = "UkCustom"
-		}
-		curStruct = nil
+	for _, t := range extraHookedTypes {
+		g.structOf(t, tname(t))
 	}
+	// every type of config/v2 with a MarshalJSON / UnmarshalJSON method is in the graph
+	var v2Methods []string
+	for k := range g.methods(v2Path) {
+		v2Methods = append(v2Methods, k)
+	}
+	sort.Strings(v2Methods)
+	for _, k := range v2Methods {
+		if strings.HasSuffix(k, ".MarshalJSON") || strings.HasSuffix(k, ".UnmarshalJSON") {
+			tn := "v2." + strings.SplitN(k, ".", 2)[0]
+			if _, ok := g.byName[tn]; !ok {
+				g.warn = append(g.warn, "config/v2 type with a custom (un)marshaler is not in the graph: "+tn)
+				g.ok = false
+			}
+		}
+	}
+	g.hooks()
 
 	var b strings.Builder
 	b.WriteString("From Coq Require Import List String Bool ZArith.\nFrom MV Require Import Lib.GoJson.\nImport ListNotations.\nOpen Scope string_scope.\n\n")
